@@ -290,9 +290,18 @@ fn gen_impl_delegation_trait_defs(
                     }
                     _ => None,
                 };
-                let impl_lifetime = receiver_lifetime.or_else(|| {
-                    crate::signature::name_elided_output_lifetimes(&mut trait_fn.entrait_sig.sig)
-                });
+                let impl_lifetime = match receiver_lifetime {
+                    Some(lifetime) => {
+                        crate::signature::name_elided_output_lifetimes_as(
+                            &mut trait_fn.entrait_sig.sig,
+                            &lifetime,
+                        );
+                        Some(lifetime)
+                    }
+                    None => crate::signature::name_elided_output_lifetimes(
+                        &mut trait_fn.entrait_sig.sig,
+                    ),
+                };
 
                 trait_fn.entrait_sig.sig.inputs.insert(
                     1,
